@@ -86,27 +86,27 @@ func longKey(s string) uint64 {
 	return 999
 }
 func verf8(v uint64) (out [8]byte) { binary.BigEndian.PutUint64(out[:], v); return }
-func verfN(v [8]byte) uint64      { return binary.BigEndian.Uint64(v[:]) }
+func verfN(v [8]byte) uint64       { return binary.BigEndian.Uint64(v[:]) }
 
 // ---- requests -------------------------------------------------------------------
 
 type mreq struct {
 	kind string
 	// generic fields
-	long, cverf        uint64
-	short, sverf       uint64
-	client, owner      uint64
-	seq, lseq          uint32
-	access, deny       uint32
-	how, claim, name   int
-	nameIdx            int
-	deleg              uint32
-	sid                nfsv4.Stateid4
-	ltype              uint32
-	off, length        uint64
-	lclient, lowner    uint64
-	iokind             int    // 0 read 1 write 2 setattr
-	openErr, ioErr     uint64 // NFS statuses the leaf will answer with (oracle)
+	long, cverf      uint64
+	short, sverf     uint64
+	client, owner    uint64
+	seq, lseq        uint32
+	access, deny     uint32
+	how, claim, name int
+	nameIdx          int
+	deleg            uint32
+	sid              nfsv4.Stateid4
+	ltype            uint32
+	off, length      uint64
+	lclient, lowner  uint64
+	iokind           int    // 0 read 1 write 2 setattr
+	openErr, ioErr   uint64 // NFS statuses the leaf will answer with (oracle)
 }
 
 var names = []string{"n0", "n1", "n2"}
@@ -361,9 +361,13 @@ func replyTerm(res *nfsv4.Compound4res, hasFh bool) (string, interface{}) {
 	return g.App("RpOp", opresTerm(main)), main
 }
 
+// replyHash hashes the XDR bytes of the result of the main operation (the
+// last one of the COMPOUND).
 func replyHash(res *nfsv4.Compound4res) uint64 {
 	var b bytes.Buffer
-	res.WriteTo(&b)
+	if n := len(res.Resarray); n > 0 {
+		res.Resarray[n-1].WriteTo(&b)
+	}
 	sum := sha256.Sum256(b.Bytes())
 	return binary.BigEndian.Uint64(sum[:8]) >> 34
 }
